@@ -653,3 +653,35 @@ def check_C08(c):
     c.assumptions += ["allocation = runtime.MemStats.TotalAlloc delta around the call in a single-goroutine process; bound 64 x input + 8 KiB (framing: 2 x declared + 8 KiB)",
                       "the allocator's 256 KiB page pool is warmed before the call (its pages are not the decoder's allocation)"]
     return c.finish()
+
+
+def check_C20(c):
+    c.model("ClientConn", "ClientConn.quick.cfg", note="the connection model shared with C03/C04: a reply with an unknown id or a failed read takes the clean-failure path (broadcast, all callers return)")
+    scen, cases = export_table(c, "WireEnum", "WireEnum.quick.cfg", "scen_wire.json")
+    c.cov["tlc_runs"][-1]["note"] = "Wire.tla's decoder (total; theorems on the enumeration) is the oracle for which replies are malformed"
+    path, crashed = run_crashy(c, "TestVerif_Replies", timeout=3000)
+    ev = vlib.read_ndjson(path)
+    rc_ev = [e for e in ev if e.get("ev") == "ReplyCase"]
+    c.cov["evaluations"] += len(rc_ev)
+    c.cov["distinct_nontrivial"] += len({(e.get("op"), e.get("mut")) for e in rc_ev if e.get("reached")})
+    c.cov["exhaustive"] = False
+    c.cov["rule"] = ("a case is one (client operation, target request of the operation, mutated reply): 36 operations of Client and File (single requests, listings, sequential and concurrent "
+                     "multi-chunk transfers with the bad reply at chunk j) x {cut at every byte, every length/count field in {0,1,n-1,n+1,2^31-1,2^32-1,2^29,2^28}, reply type replaced, id replaced, "
+                     "frames without id, random bodies}; non-trivial = the mutated reply was actually sent; quick replays a seeded third")
+    for cr in crashed:
+        h = cr["head"]
+        site = re.findall(r"github.com/pkg/sftp\.(\S+?)\(", cr["stack"])
+        site = [s for s in site if "Verif" not in s and "runReply" not in s]
+        c.violation("crash,op=%s,site=%s" % (h.get("op"), site[0] if site else "?"),
+                    "the process died (panic in a goroutine of the package) on reply case %s: %s %s: %s" % (h.get("case"), h.get("op"), h.get("mut"), cr["panic"]),
+                    {"case": h, "panic": cr["panic"], "stack": cr["stack"]})
+    found = c.validate("TraceReply", "TraceReply.cfg", path)
+    for f in found:
+        e = f["line"]
+        msg = f["state"].get("c20", "").strip('"')
+        what = "panic" if e.get("panic") else ("hang" if not e.get("returned") else ("alloc" if "proportion" in msg else ("aftermath" if "neither" in msg else "value")))
+        c.violation("Inv_C20,op=%s,%s" % (e.get("op"), what), "%s: %s" % (msg, json.dumps({k: e.get(k) for k in ("op", "mut", "panic", "err", "alloc", "usable", "failedclean")})[:400]),
+                    {"module": "TraceReply", "case": {k: v for k, v in e.items()}, "tlc": msg})
+    c.assumptions += ["a STATUS reply without message / language tag is accepted by the client on purpose (many servers send it); 'malformed => no value' is checked for HANDLE/DATA/NAME/ATTRS replies",
+                      "allocation bound 64 x reply + 300 KB (the operation's own buffers included); measured around the call"]
+    return c.finish()
